@@ -22,6 +22,8 @@ mod range_map;
 mod regex_to_nfa;
 mod right_ctx;
 mod semantic_action_table;
+#[cfg(lexgen_verif)]
+mod verif_dump;
 
 #[cfg(test)]
 mod tests;
@@ -148,6 +150,9 @@ pub fn lexer(input: TokenStream) -> TokenStream {
     dfa::update_backtracks(&mut dfa);
 
     let dfa = dfa::simplify::simplify(dfa, &mut dfas);
+
+    #[cfg(lexgen_verif)]
+    verif_dump::dump_to_dir(&type_name.to_string(), &dfa, &right_ctx_dfas, &dfas);
 
     dfa::codegen::generate(
         dfa,
